@@ -242,6 +242,9 @@ pub fn insp_alphabet() -> Vec<Mac> {
         c(StaticCall, BSD, 0, 50_000),
         c(Call, PROBE, 0, 2_000_000_000), // depth-limit failure inside
         Mac::SdBare,
+        c(StaticCall, BLOG, 0, 50_000), // a LOG that is stepped but rejected (static mode)
+        c(Call, BLOG, 0, 700),          // a LOG that runs out of gas
+        Mac::LogBare,                   // a LOG on an empty stack
     ]);
     a
 }
